@@ -83,7 +83,7 @@ Verdict modeA(Tape& t, Run& run) {
 	NifFile nif;
 	nif.Create(ver.ni());
 	MeshOpts mo;
-	mo.maxVerts = 200;
+	mo.maxVerts = 60;
 	mo.maxTris = 600;
 	mo.coordRange = 64.0f;
 	mo.allowUnusedVerts = false;
